@@ -354,6 +354,21 @@ def corpus(vf):
         e = {'-': (X - Y, Y - X), '/': (X / (Y * Y + 1), (Y * Y + 1) / X)}[op]
         V.add((e[0] * v + e[1] * v.dx(d - 1)) * vf.dx); return V
 
+    def two_space(d, kind):
+        # Petrov-Galerkin: trial functions from space 0, test functions from space 1 (different knot vectors / degrees on a common mesh)
+        if kind == 'mass':
+            V = vf.VForm(d); u, v = V.basisfuns(spaces=(0, 1)); V.add(u * v * vf.dx)
+        elif kind == 'laplace':
+            V = vf.VForm(d); u, v = V.basisfuns(spaces=(0, 1)); V.add(vf.inner(vf.grad(u), vf.grad(v)) * vf.dx)
+        elif kind == 'convection':
+            V = vf.VForm(d); u, v = V.basisfuns(spaces=(0, 1)); b = V.input('b', shape=(d,)); V.add(vf.inner(b, vf.grad(u)) * v * vf.dx)
+        elif kind == 'div':
+            V = vf.VForm(d); u, v = V.basisfuns(components=(d, 1), spaces=(0, 1)); V.add(vf.div(u) * v * vf.dx)
+        return V
+
+    for d in (1, 2, 3):
+        for kind in ('mass', 'laplace', 'convection') + (('div',) if d > 1 else ()):
+            add('two_space(%d,%s)' % (d, kind), lambda d=d, kind=kind: two_space(d, kind))
     for d in (1, 2):
         add('folds(%d)' % d, lambda d=d: folds(d))
         for op in ('-', '/', '+', '*'):
@@ -420,3 +435,15 @@ def make_diff_case(vf, seed):
     e = tree(rng.choice([1, 2, 2, 3]))
     k = rng.randrange(d)
     return {'V': V, 'e': e, 'k': k, 'parametric': parametric, 'desc': 'd=%d k=%d parametric=%s e=%s' % (d, k, parametric, str(e)[:160])}
+
+
+def make_form(vf, spec):
+    """build the form named by a program spec: ['corpus', name] or ['rand', seed, depth] -> {'V':, 'orig':, 'desc':}"""
+    if spec[0] == 'corpus':
+        for name, make in corpus(vf):
+            if name == spec[1]:
+                return {'V': make(), 'orig': None, 'desc': name}
+        raise KeyError(spec[1])
+    if spec[0] == 'rand':
+        return make_random_form(vf, spec[1], depth=spec[2])
+    raise ValueError(spec)
